@@ -147,6 +147,11 @@ Proof.
 Qed.
 Lemma registered_b_iff : forall s w, registered_b s w = true <-> registered s w.
 Proof. intros. unfold registered_b, registered. apply oeqb_eq. Qed.
+Lemma all_registered_b_iff : forall s, all_registered_b s = true <-> all_registered s.
+Proof.
+  intros s. unfold all_registered_b, all_registered. rewrite forallb_seq.
+  split; intros H w Hw; apply registered_b_iff; auto.
+Qed.
 Lemma subject_registered_b_iff : forall s o, subject_registered_b s o = true <-> subject_registered s o.
 Proof.
   intros. unfold subject_registered_b, subject_registered. destruct (subject o); [apply registered_b_iff | tauto].
